@@ -18,7 +18,8 @@ def kernel_order(d, s, dde_approx=0):
 
 def gen_pair(rng):
     """(d, s) with (d/s)^2 in [1, 12.4], including the .5 rounding boundaries"""
-    d = rng.choice([0.02, 0.05, 0.1, 0.25, 0.4])
+    # delays incl. values whose rate n/d and whose ratio d/dt are not short decimal fractions
+    d = rng.choice([0.02, 0.05, 0.1, 0.25, 0.4, 0.012, 0.007, 0.03, 0.0123456, 0.0471])
     kind = rng.random()
     if kind < 0.25:
         q = rng.choice([1.5, 2.5, 3.5, 5.5]) + rng.choice([-1e-6, 1e-6, -0.01, 0.01])
